@@ -485,6 +485,26 @@ Fixpoint add_scaled_recipes (n : N) (dirpath : path) (parent : chain) (rs : list
       Ok (ref :: refs, h')))
   end.
 
+(** The body of the unscaled category's loop: [recipe_pages[src]], the page at count 1 (or the
+    unscalable one), its native count, the page at the native count. *)
+Definition unscaled_lookup (m : option scalings) : outcome (scalings * option N * rpage) :=
+  match m with
+  | None => Err EKeyError
+  | Some m =>
+      match (match sc_get (Some 1) m with Some p => Some p | None => sc_get None m end) with
+      | None => Err EKeyError
+      | Some p0 =>
+          let native := rp_native p0 in
+          match sc_get native m with
+          | None => Err EMaxServings
+          | Some p => Ok (m, native, p)
+          end
+      end
+  end.
+
+Definition unscaled_ref (src : path) (native : option N) (p : rpage) : rref :=
+  {| rr_title := rp_title p; rr_name := last (rp_source p) []; rr_source := src; rr_key := native |}.
+
 (** Recipes of the unscaled category: look the native page up, re-parent unscalable ones. *)
 Fixpoint add_unscaled_recipes (dirpath : path) (me : chain) (rs : list (str * option bytes))
   (h : heap) : outcome (list rref * heap) :=
@@ -492,26 +512,12 @@ Fixpoint add_unscaled_recipes (dirpath : path) (me : chain) (rs : list (str * op
   | [] => Ok ([], h)
   | (name, _) :: r =>
       let src := dirpath ++ [name] in
-      match heap_get src h with
-      | None => Err EKeyError
-      | Some m =>
-          match (match sc_get (Some 1) m with Some p => Some p | None => sc_get None m end) with
-          | None => Err EKeyError
-          | Some p0 =>
-              let native := rp_native p0 in
-              match sc_get native m with
-              | None => Err EMaxServings
-              | Some p =>
-                  let ref := {| rr_title := rp_title p; rr_name := last (rp_source p) []; rr_source := src;
-                                rr_key := native |} in
-                  let h1 := match native with
-                            | None => heap_set src (sc_set native (set_parent p me) m) h
-                            | Some _ => h
-                            end in
-                  bind (add_unscaled_recipes dirpath me r h1) (fun '(refs, h') => Ok (ref :: refs, h'))
-              end
-          end
-      end
+      bind (unscaled_lookup (heap_get src h)) (fun '(m, native, p) =>
+      let h1 := match native with
+                | None => heap_set src (sc_set native (set_parent p me) m) h     (* the "Bodge" *)
+                | Some _ => h
+                end in
+      bind (add_unscaled_recipes dirpath me r h1) (fun '(refs, h') => Ok (unscaled_ref src native p :: refs, h')))
   end.
 
 (** [CategoryPage.from_directory(servings, directory_path, parent, recipe_pages)]. *)
